@@ -5,7 +5,7 @@
 //
 //	R <N> <C> <faulty csv|-> <proposers csv> op;op;…
 //	  P,<to>,<p>,<ver>                       the proposal (version ver) of proposer p reaches honest node <to>
-//	  T,<i>,<k>                              timer k fires at honest node i (0 propose, 1 2nd-propose, 2 endorse, 3 endorse-empty)
+//	  T,<i>,<k>                              timer k fires at honest node i (0 propose, 1 2nd-propose, 2 endorse, 3 endorse-empty, 4 commit: needs the hook's ledger stub)
 //	  D,<i>,<k>,<to> / DO,<i>,<to> / DX,<i>  k-th broadcast of honest i reaches <to> / all its broadcasts so far reach <to> / reach everybody
 //	  X,<f>,<kind>,<p>,<ver>,<fe>,<as>,<to>  Byzantine f sends to <to> a message about proposal (p,ver): kind e = endorsement,
 //	                                         c = commit (both genuinely signed with f's key), fc = commit whose EndorsersSig
@@ -402,7 +402,7 @@ func genServerLine(r *hx.Rand) string {
 				}
 			}
 			if r.Chance(40) {
-				add("T,%d,%d", H[r.Intn(len(H))], r.Intn(4))
+				add("T,%d,%d", H[r.Intn(len(H))], r.Intn(5))
 			}
 		}
 	case 2: // two honest proposers, leader's proposal slow towards some nodes (proposal timeouts)
@@ -489,7 +489,7 @@ func genServerLine(r *hx.Rand) string {
 				}
 				add("P,%d,%d,%d", n, p, ver)
 			case 2:
-				add("T,%d,%d", n, r.Intn(4))
+				add("T,%d,%d", n, r.Intn(5))
 			case 3, 4:
 				add("DX,%d", n)
 			case 5:
